@@ -5,39 +5,47 @@
    every goroutine plus the fingerprint of an isolated sequential run (separately compiled Program /
    separately built values).  The model of "sharing is invisible" is trivial: all fingerprints are equal.
    In addition the operations the case exercises are mapped to the model's event lists and checked
-   structurally: no write to Program-owned memory, ownership respected — except where the model itself
-   predicts a race (template cell redefinition C16-N1, unscanned imported strings F14); the harness' own
-   prediction flag must agree with the model's. *)
+   structurally: no write to Program-owned memory, ownership respected, imported-string fields touched
+   only through the scan-once protocol's locations.
+   xrt cases: an Object handed to another Runtime; the spec S is [to_value]; for the direct-argument path
+   the implementation model I accepts everything (open finding C16-N2). *)
 From Coq Require Import List Arith NArith Bool.
 Import ListNotations.
 From Verif.C16 Require Export Model.
 
 Inductive tcase :=
-| CProg (ops : list vop) (predicted_racy : bool) (seq : N) (runs : list N)
-| CVals (uses : list (pval * pop)) (imported : list (imethod * bool)) (predicted_racy : bool) (seq : N) (runs : list N)
-| CXrt (r : nat) (g : gval) (obs : N)      (* obs: 0 accepted, 1 null, 2 TypeError, 3 anything else (panic, other error) *)
+| CProg (ops : list vop) (seq : N) (runs : list N)
+| CVals (acts : list action) (seq : N) (runs : list N)
+| CXrt (direct : bool) (r : nat) (g : gval) (obs : N)
+     (* obs: 0 accepted, 1 null, 2 TypeError, 3 anything else (panic, other error);
+        direct = the value is passed as an argument of a Callable without any conversion *)
 | CFail.
 
 Definition run_readonly (ops : list vop) : bool :=
   forallb (fun e => respectsb 0 e && negb (writes_prog 0 e)) (events_of_run 0 0 ops).
 
-Definition prims_readonly (uses : list (pval * pop)) : bool :=
-  forallb (respectsb 0) (events_of_prims 0 uses).
+Definition shared_event_ok (e : event) : bool :=
+  match e with
+  | Acc k l _ =>
+      match l with
+      | LImpS _ => negb (is_write k)
+      | LImpU _ | LImpScanned _ => negb (is_atomic k)
+      | LOnceDone _ => is_atomic k
+      | _ => respectsb 0 e
+      end
+  | _ => true
+  end.
 
-(* an imported-string method is safe to share iff its event list (either branch) writes nothing shared *)
-Definition imethod_readonly (ms : imethod * bool) : bool :=
-  forallb (respectsb 0) (ev_imethod 0 (fst ms) (snd ms)).
+Definition acts_ok (acts : list action) : bool := forallb shared_event_ok (events_of_actions 0 acts).
 
 Definition tv_code (t : tv_result) : N :=
   match t with TVOk _ => 0 | TVNull => 1 | TVTypeError => 2 end%N.
 
 Definition check_case (c : tcase) : bool :=
   match c with
-  | CProg ops pr seq runs =>
-      forallb (N.eqb seq) runs && Bool.eqb (negb (run_readonly ops)) pr
-  | CVals uses imp pr seq runs =>
-      forallb (N.eqb seq) runs && prims_readonly uses && Bool.eqb (negb (forallb imethod_readonly imp)) pr
-  | CXrt r g obs => N.eqb (tv_code (to_value r g)) obs
+  | CProg ops seq runs => forallb (N.eqb seq) runs && run_readonly ops
+  | CVals acts seq runs => forallb (N.eqb seq) runs && acts_ok acts
+  | CXrt _ r g obs => N.eqb (tv_code (to_value r g)) obs
   | CFail => false
   end.
 
@@ -48,11 +56,11 @@ Fixpoint mismatch_from (i : N) (cs : list tcase) : list N :=
   end.
 Definition mismatch_ids := mismatch_from 0%N.
 
-(* what the model says: (every goroutine must show this fingerprint, the model predicts a data race) *)
-Definition expected (c : tcase) : N * bool :=
+(* (what S says every goroutine / the API must show, what I says) *)
+Definition expected (c : tcase) : N * N :=
   match c with
-  | CProg ops _ seq _ => (seq, negb (run_readonly ops))
-  | CVals uses imp _ seq _ => (seq, negb (prims_readonly uses && forallb imethod_readonly imp))
-  | CXrt r g _ => (tv_code (to_value r g), false)
-  | CFail => (0%N, false)
+  | CProg _ seq _ => (seq, seq)
+  | CVals _ seq _ => (seq, seq)
+  | CXrt direct r g _ => (tv_code (to_value r g), if direct then tv_code (call_arg_impl r g) else tv_code (to_value r g))
+  | CFail => (0%N, 0%N)
   end.
